@@ -304,7 +304,7 @@ Proof.
     destruct (IH (od ++ [o]) xa x' Hk A H) as (A2 & B2 & C2). rewrite <- app_assoc in A2. cbn in A2.
     split; [exact A2|]. split; [intros [Hh|Hh]; [apply C; auto|apply B2; exact Hh]|].
     intros o1 w t n o2 E1. destruct o1 as [|y o1]; cbn in E1.
-    + injection E1 as -> _. rewrite app_nil_r. eapply B; reflexivity.
+    + injection E1 as -> _. rewrite app_nil_r. apply (B w t n eq_refl).
     + injection E1 as -> E1. specialize (C2 o1 w t n o2 E1). rewrite <- app_assoc in C2. exact C2.
 Qed.
 
@@ -356,7 +356,7 @@ Proof.
     split; [exact A2|]. split; [intros Hh; apply in_app_or in Hh as [Hh|Hh]; auto|].
     intros epre e0 epost opre o1 w t n o2 opost Ee Eo Hl.
     destruct epre as [|e1 epre]; destruct opre as [|op opre]; cbn in Hl; try discriminate.
-    + cbn in Ee, Eo. injection Ee as -> _. injection Eo as -> _. cbn. apply C. reflexivity.
+    + cbn in Ee, Eo. injection Ee as -> _. injection Eo as -> _. cbn. apply (C o1 w t n o2 eq_refl).
     + cbn in Ee, Eo. injection Ee as -> Ee. injection Eo as -> Eo.
       assert (Hl' : length epre = length opre) by lia.
       specialize (C2 epre e0 epost opre o1 w t n o2 opost Ee Eo Hl').
